@@ -74,6 +74,16 @@ func (c *Conn) Push(delay time.Duration, data []byte, err error) {
 	}
 }
 
+// Abort drops whatever has not been read yet and makes the next Read fail with err at once (a reset by the
+// peer discards the data still queued in the receive buffer).
+func (c *Conn) Abort(err error) {
+	c.in = []chunk{{time.Now(), nil, err}}
+	select {
+	case c.wake <- struct{}{}:
+	default:
+	}
+}
+
 // Pending reports how many queued bytes have not been read yet.
 func (c *Conn) Pending() int {
 	n := 0
